@@ -436,6 +436,10 @@ def gen_clockwork_world(seed, index, **over):
             gd["graph"] = [_node("n1", work_profile=gd["graph"][0]["work_profile"])]
         for prof in profiles[1:]:
             prof["execution_strategies"] = [dict(e) for e in profiles[0]["execution_strategies"]]
+            prof["loading_strategies"] = [dict(e) for e in profiles[0]["loading_strategies"]]  # equal in every respect
+        for prof in profiles:
+            for ls in prof["loading_strategies"]:
+                ls["runtime"] = 0  # resident from the first instant: the requests must be servable for ties to matter
     if over.get("runtime_scale"):
         for prof in profiles:
             for e in prof["execution_strategies"]:
